@@ -74,6 +74,9 @@ var (
 	poorExact  = op{Kind: "poor-exact", From: "EC", To: "EB"}
 	wrongChain = op{Kind: "wrong-chain", From: "EA", To: "EB"}
 	resubmit   = op{Kind: "resubmit", From: "EA"}
+	// a contract creation without init code whose gas limit (40 000) lies between the price of a plain send
+	// (21 000) and the intrinsic gas of a creation (53 000): must fail its pre-checks without any trace
+	mkLowGas = op{Kind: "create-empty-lowgas", From: "EA"}
 )
 
 // singles: one operation per block.
@@ -106,6 +109,9 @@ func pairs() []event {
 		p(callOK, sendAStore),   // EVM touches the contract, then native credit of it
 		p(callOOG, xferEB),      // out of gas, then a transfer
 		p(xferGap, resubmit),    // the byte-identical transaction again in the same block
+		// (added after a seeded change - such a creation priced as a send by the pre-checks and then rejected by
+		// the state transition AFTER the gas was pre-paid, nothing finalised - escaped the alphabet)
+		p(mkLowGas, xferEB), // rejected for its intrinsic gas, then a transfer of the same sender in the same block
 	}
 }
 
